@@ -56,6 +56,10 @@ pub enum Driving {
     /// like PerFrame, with the host switching sound generation on/off before each frame (bit 0
     /// of the cycled entries)
     SettingsToggled(Vec<u8>),
+    /// the first j frames in maximum-speed mode, one frame per call (the stopwatch is far beyond
+    /// the limit every time), the rest one frame per call at normal speed; audio drained after
+    /// every frame and compared with the reference run's, frame by frame
+    MaxThenPerFrame(u8),
 }
 
 #[derive(Clone, Copy, Debug, Serialize, Deserialize, PartialEq, Eq)]
@@ -376,6 +380,21 @@ pub fn drive(sc: &Scenario, e: &mut Emu, d: &Driving) -> Result<Trace, String> {
                     return Err("maximum-speed mode did not stop on the stopwatch".into());
                 }
             }
+            Driving::MaxThenPerFrame(j) => {
+                e.debug_interface().unwrap().mode = BpMode::Never;
+                if now < *j as u64 {
+                    e.set_speed(EmulationMode::Max);
+                    set_stopwatch_script(vec![u64::MAX / 4]);
+                    let info = e.emulate_frames(Duration::from_micros(1000)).map_err(|x| format!("{:?}", x))?;
+                    set_stopwatch_script(vec![]);
+                    if info.stop_reason != EmulationStopReason::Timeout {
+                        return Err("maximum-speed mode did not stop on the stopwatch".into());
+                    }
+                } else {
+                    e.set_speed(EmulationMode::FrameCount(1));
+                    e.emulate_frames(LONG).map_err(|x| format!("{:?}", x))?;
+                }
+            }
             Driving::BreakAtPc(addrs) => {
                 e.set_speed(EmulationMode::FrameCount(1));
                 e.debug_interface().unwrap().mode = BpMode::At(addrs.clone());
@@ -447,10 +466,14 @@ pub fn check(c: &Case, rec: &mut Rec) -> Result<(), String> {
         return Err("harness: driving did not reach the final frame".into());
     }
     // audio: identical when drained identically (per-frame drivings through other assets / repeated)
-    if matches!(c.driving, Driving::PerFrame) {
+    if matches!(c.driving, Driving::PerFrame | Driving::MaxThenPerFrame(_)) {
         if t1.audio != t0.audio {
             let fi = t1.audio.iter().zip(t0.audio.iter()).position(|(a, b)| a != b);
-            return Err(format!("audio stream differs between two identical per-frame runs (asset {:?}): first differing frame {:?}", c.asset, fi));
+            return Err(format!(
+                "audio stream drained frame by frame differs between the one-frame-per-call run and {} (asset {:?}): first differing frame {:?}",
+                match &c.driving { Driving::MaxThenPerFrame(j) => format!("a run whose first {} frames were emulated in maximum-speed mode, one frame per call", j), _ => "an identical second run".to_string() },
+                c.asset, fi
+            ));
         }
         rec.class("audio-compared");
     }
@@ -475,6 +498,7 @@ pub fn check(c: &Case, rec: &mut Rec) -> Result<(), String> {
         Driving::NeverDrain => "never-drain",
         Driving::SoundOff => "sound-off",
         Driving::SettingsToggled(_) => "sound-toggled-between-frames",
+        Driving::MaxThenPerFrame(_) => "max-speed-frames-then-per-frame(audio compared)",
     }));
     rec.class(&format!("asset:{}", match c.asset {
         AssetKind::Mem => "harness-mem",
@@ -498,6 +522,7 @@ pub fn case_strategy() -> impl Strategy<Value = Case> {
             1 => Just(Driving::NeverDrain),
             1 => Just(Driving::SoundOff),
             1 => proptest::collection::vec(any::<u8>(), 1..=6).prop_map(Driving::SettingsToggled),
+            2 => (1u8..8).prop_map(Driving::MaxThenPerFrame),
         ],
         prop_oneof![3 => Just(AssetKind::Mem), 1 => Just(AssetKind::BufferCursor), 1 => Just(AssetKind::File), 1 => Just(AssetKind::Gzip), 2 => (1u8..=255).prop_map(AssetKind::Chunked)],
     )
@@ -611,7 +636,7 @@ pub fn replay(run: &mut Run, phase: &str, case: &serde_json::Value) -> Result<()
 }
 
 pub const LEVEL: &str = "exploration";
-pub const RULE: &str = "scenario = machine x generated interrupt-driven program (ALU, memory and screen writes, beeper/border OUTs, keyboard+EAR, Kempston and mouse reads stored to RAM, AY register writes with read-back, 128K paging, LDIR, HALT, EI/DI) with a self-counting IM 1 / IM 2 handler x sound settings (AY, beeper, sample rate 8000..96000, volume) x tape (none / playing / stopped with fast loading on / stopped with fast loading off) x input script (key / joystick / mouse events attached to frame indices) x K = 2..12 frames, started from a SNA file. The reference run drives it one frame per call, draining audio. The run under test uses one of: the same again (repeatability, audio compared bit for bit), a partition into FrameCount(n) calls (each of which must complete exactly n frames and report Completed, also with a scripted stopwatch far beyond or jumping across a 1 ms time limit), maximum-speed mode with scripted stopwatch readings (zeros, non-monotonic, large), breakpoint stops after generated instruction counts with resumption, audio never drained, sound switched off, sound switched on and off between frames; and delivers the initial file, the tape image and (with short reads) the ROM images through the harness asset, rustzx's BufferCursor, a real temporary file (FileAsset), GzipAsset, or an asset returning 1..255 bytes per read. At every frame count where the run under test stops on a frame boundary, a hash of registers, all RAM banks, paging, frame clock, canvas and border buffers must equal the reference run's. non-trivial = >= 2 frames and a driving or asset different from the reference; distinct = hash of the case. Phase event-on-the-frame-crossing-instruction (enumerated): a program that enters the ROM tape routine (stopped tape, fast loading on) after a calibrated delay, 32 consecutive paddings of 4 T-states x both machines x five drivings, so that for some padding the instruction in front of the fast loader's trap address is the one during which the frame ends; the same comparison against the one-frame-per-call run; non-trivial there = a probe run with a breakpoint on the trap address stops with the frame counter just advanced and fewer than 4 T-states on the frame clock";
+pub const RULE: &str = "scenario = machine x generated interrupt-driven program (ALU, memory and screen writes, beeper/border OUTs, keyboard+EAR, Kempston and mouse reads stored to RAM, AY register writes with read-back, 128K paging, LDIR, HALT, EI/DI) with a self-counting IM 1 / IM 2 handler x sound settings (AY, beeper, sample rate 8000..96000, volume) x tape (none / playing / stopped with fast loading on / stopped with fast loading off) x input script (key / joystick / mouse events attached to frame indices) x K = 2..12 frames, started from a SNA file. The reference run drives it one frame per call, draining audio. The run under test uses one of: the same again (repeatability, audio compared bit for bit), a partition into FrameCount(n) calls (each of which must complete exactly n frames and report Completed, also with a scripted stopwatch far beyond or jumping across a 1 ms time limit), maximum-speed mode with scripted stopwatch readings (zeros, non-monotonic, large), breakpoint stops after generated instruction counts with resumption, audio never drained, sound switched off, sound switched on and off between frames, the first 1..7 frames in maximum-speed mode one frame per call and the rest at normal speed (audio drained after every frame must equal the reference run's bit for bit, in the maximum-speed frames and after them); and delivers the initial file, the tape image and (with short reads) the ROM images through the harness asset, rustzx's BufferCursor, a real temporary file (FileAsset), GzipAsset, or an asset returning 1..255 bytes per read. At every frame count where the run under test stops on a frame boundary, a hash of registers, all RAM banks, paging, frame clock, canvas and border buffers must equal the reference run's. non-trivial = >= 2 frames and a driving or asset different from the reference; distinct = hash of the case. Phase event-on-the-frame-crossing-instruction (enumerated): a program that enters the ROM tape routine (stopped tape, fast loading on) after a calibrated delay, 32 consecutive paddings of 4 T-states x both machines x five drivings, so that for some padding the instruction in front of the fast loader's trap address is the one during which the frame ends; the same comparison against the one-frame-per-call run; non-trivial there = a probe run with a breakpoint on the trap address stops with the frame counter just advanced and fewer than 4 T-states on the frame clock";
 pub const ASSUMPTIONS: &[&str] = &[
     "inputs are applied between emulate_frames calls at the same frame indices in all drivings (the property's 'inputs applied at frame boundaries')",
     "total frame count comes from the cfg(rustzx_verif) frame counter hook",
